@@ -6,7 +6,7 @@ import ast
 from sa.astx import body_walk, call_attr, call_name, dotted, src
 from sa.selftest import Mutant, Silent
 from sa.source import methods
-from sa.props._lib_c import (LOGGER, assign_pairs, enclosing, gfind, is_const, isolating_with, must_pass, no_exc, parents, self_attr,
+from sa.props._lib_c import (anchor_methods, section, LOGGER, assign_pairs, enclosing, gfind, is_const, isolating_with, must_pass, no_exc, parents, self_attr,
                              swallowing_predicate)
 
 PROPERTY = "C12"
@@ -110,259 +110,266 @@ def _drain_sites(ctx, f, g, q, names, lists_ok, rule_prefix):
 def check(ctx):
     mod = ctx.mod(BASE)
     cls = ctx.cls(BASE, "_ThreePhaseEvent")
-    m = methods(cls)
+    m = anchor_methods(ctx, BASE, cls, ("addTrigger", "removeTrigger", "removeTrigger_BASE", "removeTrigger_BEFORE", "fireEvent", "_continueFiring"))
     names, swallow = swallowing_predicate(ctx, BASE)
     ctx.check(bool(names), "isolation/handlers-derived", f"twisted.logger._logger.Logger.failureHandler",
               "no module-level failure handler of internet/base.py is provably swallowing any more (Logger.failureHandler's context manager "
               "does not return True from __exit__ on every path): trigger exceptions propagate")
-    for nm in ("addTrigger", "removeTrigger", "removeTrigger_BASE", "removeTrigger_BEFORE", "fireEvent", "_continueFiring"):
-        ctx.need(m.get(nm), f"_ThreePhaseEvent.{nm}")
-        ctx.functions.add(f"{BASE}:_ThreePhaseEvent.{nm}")
 
     # ---- addTrigger -------------------------------------------------------------------------------------------------
-    f = m["addTrigger"]
-    g = ctx.cfg(f)
-    q = f"{Q}.addTrigger"
-    ps = [a.arg for a in f.args.args]
-    ctx.need(len(ps) >= 3 and f.args.vararg and f.args.kwarg, "addTrigger(self, phase, callable, *args, **kwargs)")
-    phase, cb, va, kwa = ps[1], ps[2], f.args.vararg.arg, f.args.kwarg.arg
-    fills = gfind(g, lambda x: isinstance(x, ast.Call) and isinstance(x.func, ast.Attribute) and _getattr_self(x.func.value))
-    ctx.check(len(fills) == 1, "order/filled-at-tail", q, f"{len(fills)} mutation sites of the phase list in addTrigger (one append expected)")
-    app_tuple = None
-    for n in fills:
-        c = next(x for x in ast.walk(g.node(n).ast) if isinstance(x, ast.Call) and isinstance(x.func, ast.Attribute) and _getattr_self(x.func.value))
-        key = ctx.construct(q, g.node(n).ast)
-        ctx.check(c.func.attr == "append" and len(c.args) == 1, "order/filled-at-tail", key,
-                  "a trigger is not appended at the tail of its phase list: registration order is not execution order")
-        ctx.check(_getattr_self(c.func.value, phase) and _phase_guard(g, n, phase), "order/phase-validated", key,
-                  "the phase list is selected by an unvalidated name (a trigger can land in another attribute and never run)")
-        if c.args and isinstance(c.args[0], ast.Tuple):
-            app_tuple = [src(e) for e in c.args[0].elts]
-        ctx.check(app_tuple == [cb, va, kwa], "once/registered-arguments", key, "the stored trigger is not (callable, args, kwargs)")
-    w = must_pass(g, [g.entry], fills, exc=False)
-    ctx.check(w is None, "order/filled-at-tail", q + " | <all paths>", "addTrigger can return a handle without having registered the trigger", witness=g.describe(w))
-    rets = [r for r in body_walk(f) if isinstance(r, ast.Return) and r.value is not None]
-    handle_ok = False
-    for r in rets:
-        v = r.value
-        if isinstance(v, ast.Call) and len(v.args) == 1:
-            v = v.args[0]
-        handle_ok = isinstance(v, ast.Tuple) and [src(e) for e in v.elts] == [phase, cb, va, kwa]
-    ctx.check(handle_ok, "remove/handle-layout", q, "the handle is not (phase, callable, args, kwargs): removeTrigger cannot find the trigger it denotes")
-
-    # ---- removers ---------------------------------------------------------------------------------------------------------
-    states = set()
-    for fn in m.values():
-        for st in body_walk(fn):
-            for t, v in assign_pairs(st):
-                if self_attr(t, "state"):
-                    if isinstance(v, ast.Constant) and isinstance(v.value, str):
-                        states.add(v.value)
-                    else:
-                        ctx.violation("remove/state-has-remover", ctx.construct(Q, st), "state assigned a non-literal")
-    for s in sorted(states):
-        ctx.check(("removeTrigger_" + s) in m, "remove/state-has-remover", f"{Q} | state {s!r}", f"no removeTrigger_{s} method: removeTrigger raises AttributeError in that state")
-    f = m["removeTrigger"]
-    disp = [c for c in body_walk(f) if isinstance(c, ast.Call) and isinstance(c.func, ast.Call) and dotted(c.func.func) == "getattr"
-            and len(c.func.args) == 2 and src(c.func.args[1]) in ("'removeTrigger_' + self.state", "f'removeTrigger_{self.state}'")]
-    ctx.check(len(disp) == 1 and len(disp[0].args) == 1 and src(disp[0].args[0]) == f.args.args[1].arg, "remove/state-has-remover", f"{Q}.removeTrigger",
-              "removeTrigger does not dispatch on self.state with the handle")
-
-    f = m["removeTrigger_BASE"]
-    g = ctx.cfg(f)
-    q = f"{Q}.removeTrigger_BASE"
-    h = f.args.args[1].arg
-    unp = [st for st in body_walk(f) if isinstance(st, ast.Assign) and src(st.value) == h and isinstance(st.targets[0], ast.Tuple) and len(st.targets[0].elts) == 4]
-    ctx.check(len(unp) == 1, "remove/handle-layout", q, "the handle is not unpacked into four fields")
-    rms = gfind(g, lambda x: isinstance(x, ast.Call) and isinstance(x.func, ast.Attribute) and _getattr_self(x.func.value))
-    ctx.check(len(rms) == 1, "remove/really-removes", q, f"{len(rms)} mutation sites in removeTrigger_BASE (one remove expected)")
-    if unp:
-        p_, c_, a_, k_ = [src(e) for e in unp[0].targets[0].elts]
-        for n in rms:
+    with section(ctx, 'addTrigger'):
+        f = m["addTrigger"]
+        g = ctx.cfg(f)
+        q = f"{Q}.addTrigger"
+        ps = [a.arg for a in f.args.args]
+        ctx.need(len(ps) >= 3 and f.args.vararg and f.args.kwarg, "addTrigger(self, phase, callable, *args, **kwargs)")
+        phase, cb, va, kwa = ps[1], ps[2], f.args.vararg.arg, f.args.kwarg.arg
+        fills = gfind(g, lambda x: isinstance(x, ast.Call) and isinstance(x.func, ast.Attribute) and _getattr_self(x.func.value))
+        ctx.check(len(fills) == 1, "order/filled-at-tail", q, f"{len(fills)} mutation sites of the phase list in addTrigger (one append expected)")
+        app_tuple = None
+        for n in fills:
             c = next(x for x in ast.walk(g.node(n).ast) if isinstance(x, ast.Call) and isinstance(x.func, ast.Attribute) and _getattr_self(x.func.value))
             key = ctx.construct(q, g.node(n).ast)
-            ctx.check(c.func.attr == "remove" and len(c.args) == 1 and isinstance(c.args[0], ast.Tuple) and [src(e) for e in c.args[0].elts] == [c_, a_, k_]
-                      and _getattr_self(c.func.value, p_), "remove/handle-layout", key,
-                      "the remover does not remove (callable, args, kwargs) from the list named by the handle's phase: the trigger stays registered and still runs")
-            ctx.check(_phase_guard(g, n, p_), "order/phase-validated", key, "remove from an unvalidated attribute name")
-        w = must_pass(g, [g.entry], rms, exc=False)
-        ctx.check(w is None, "remove/really-removes", q + " | <all paths>", "removeTrigger_BASE can return normally without removing anything", witness=g.describe(w))
+            ctx.check(c.func.attr == "append" and len(c.args) == 1, "order/filled-at-tail", key,
+                      "a trigger is not appended at the tail of its phase list: registration order is not execution order")
+            ctx.check(_getattr_self(c.func.value, phase) and _phase_guard(g, n, phase), "order/phase-validated", key,
+                      "the phase list is selected by an unvalidated name (a trigger can land in another attribute and never run)")
+            if c.args and isinstance(c.args[0], ast.Tuple):
+                app_tuple = [src(e) for e in c.args[0].elts]
+            ctx.check(app_tuple == [cb, va, kwa], "once/registered-arguments", key, "the stored trigger is not (callable, args, kwargs)")
+        w = must_pass(g, [g.entry], fills, exc=False)
+        ctx.check(w is None, "order/filled-at-tail", q + " | <all paths>", "addTrigger can return a handle without having registered the trigger", witness=g.describe(w))
+        rets = [r for r in body_walk(f) if isinstance(r, ast.Return) and r.value is not None]
+        handle_ok = False
+        for r in rets:
+            v = r.value
+            if isinstance(v, ast.Call) and len(v.args) == 1:
+                v = v.args[0]
+            handle_ok = isinstance(v, ast.Tuple) and [src(e) for e in v.elts] == [phase, cb, va, kwa]
+        ctx.check(handle_ok, "remove/handle-layout", q, "the handle is not (phase, callable, args, kwargs): removeTrigger cannot find the trigger it denotes")
 
-    f = m["removeTrigger_BEFORE"]
-    g = ctx.cfg(f)
-    q = f"{Q}.removeTrigger_BEFORE"
-    h = f.args.args[1].arg
-    unp = [st for st in body_walk(f) if isinstance(st, ast.Assign) and src(st.value) == h and isinstance(st.targets[0], ast.Tuple) and len(st.targets[0].elts) == 4]
-    ctx.check(len(unp) == 1, "remove/handle-layout", q, "the handle is not unpacked into four fields")
-    if unp:
-        p_, c_, a_, k_ = [src(e) for e in unp[0].targets[0].elts]
-        deleg = gfind(g, lambda x: _is_call(x, "self.removeTrigger_BASE") and len(x.args) == 1 and src(x.args[0]) == h)
-        fin_tests = g.ids(lambda n: n.kind == "test" and isinstance(n.ast, ast.Compare) and len(n.ast.ops) == 1 and isinstance(n.ast.ops[0], (ast.In, ast.NotIn))
-                          and src(n.ast.comparators[0]) == "self.finishedBefore")
-        ctx.check(bool(fin_tests) and all(src(g.node(t).ast.left) == f"({c_}, {a_}, {k_})" for t in fin_tests), "remove/already-ran-test", q,
-                  "removal during the before phase does not look the trigger up in finishedBefore as (callable, args, kwargs)")
-        ran = []
-        for t in fin_tests:
-            lab = "T" if isinstance(g.node(t).ast.ops[0], ast.In) else "F"
-            ran += [d for d, l in g.succ[t] if l == lab]
-            ctx.check(g.guarded(t, lambda e: src(e) in (f"{p_} != 'before'", f"{p_} == 'before'"), None), "remove/already-ran-test", ctx.construct(q, g.node(t).ast),
-                      "the finishedBefore test is applied to triggers of other phases")
-        # every normal exit passes the delegation, unless the trigger already ran
-        avoid = set(deleg)
-        w = g.path([g.entry], [g.exit], avoid=avoid | set(ran), edge_ok=no_exc)
-        ctx.check(bool(deleg) and w is None, "remove/really-removes", q,
-                  "a not-yet-executed trigger removed while before-triggers are firing is not removed (it still runs)", witness=g.describe(w))
+    # ---- removers ---------------------------------------------------------------------------------------------------------
+    with section(ctx, 'removers'):
+        states = set()
+        for fn in m.values():
+            for st in body_walk(fn):
+                for t, v in assign_pairs(st):
+                    if self_attr(t, "state"):
+                        if isinstance(v, ast.Constant) and isinstance(v.value, str):
+                            states.add(v.value)
+                        else:
+                            ctx.violation("remove/state-has-remover", ctx.construct(Q, st), "state assigned a non-literal")
+        for s in sorted(states):
+            ctx.check(("removeTrigger_" + s) in m, "remove/state-has-remover", f"{Q} | state {s!r}", f"no removeTrigger_{s} method: removeTrigger raises AttributeError in that state")
+        f = m["removeTrigger"]
+        disp = [c for c in body_walk(f) if isinstance(c, ast.Call) and isinstance(c.func, ast.Call) and dotted(c.func.func) == "getattr"
+                and len(c.func.args) == 2 and src(c.func.args[1]) in ("'removeTrigger_' + self.state", "f'removeTrigger_{self.state}'")]
+        ctx.check(len(disp) == 1 and len(disp[0].args) == 1 and src(disp[0].args[0]) == f.args.args[1].arg, "remove/state-has-remover", f"{Q}.removeTrigger",
+                  "removeTrigger does not dispatch on self.state with the handle")
+
+    # ---- removeTrigger_BASE --------------------
+    with section(ctx, 'removeTrigger_BASE'):
+        f = m["removeTrigger_BASE"]
+        g = ctx.cfg(f)
+        q = f"{Q}.removeTrigger_BASE"
+        h = f.args.args[1].arg
+        unp = [st for st in body_walk(f) if isinstance(st, ast.Assign) and src(st.value) == h and isinstance(st.targets[0], ast.Tuple) and len(st.targets[0].elts) == 4]
+        ctx.check(len(unp) == 1, "remove/handle-layout", q, "the handle is not unpacked into four fields")
+        rms = gfind(g, lambda x: isinstance(x, ast.Call) and isinstance(x.func, ast.Attribute) and _getattr_self(x.func.value))
+        ctx.check(len(rms) == 1, "remove/really-removes", q, f"{len(rms)} mutation sites in removeTrigger_BASE (one remove expected)")
+        if unp:
+            p_, c_, a_, k_ = [src(e) for e in unp[0].targets[0].elts]
+            for n in rms:
+                c = next(x for x in ast.walk(g.node(n).ast) if isinstance(x, ast.Call) and isinstance(x.func, ast.Attribute) and _getattr_self(x.func.value))
+                key = ctx.construct(q, g.node(n).ast)
+                ctx.check(c.func.attr == "remove" and len(c.args) == 1 and isinstance(c.args[0], ast.Tuple) and [src(e) for e in c.args[0].elts] == [c_, a_, k_]
+                          and _getattr_self(c.func.value, p_), "remove/handle-layout", key,
+                          "the remover does not remove (callable, args, kwargs) from the list named by the handle's phase: the trigger stays registered and still runs")
+                ctx.check(_phase_guard(g, n, p_), "order/phase-validated", key, "remove from an unvalidated attribute name")
+            w = must_pass(g, [g.entry], rms, exc=False)
+            ctx.check(w is None, "remove/really-removes", q + " | <all paths>", "removeTrigger_BASE can return normally without removing anything", witness=g.describe(w))
+
+    # ---- removeTrigger_BEFORE --------------------
+    with section(ctx, 'removeTrigger_BEFORE'):
+        f = m["removeTrigger_BEFORE"]
+        g = ctx.cfg(f)
+        q = f"{Q}.removeTrigger_BEFORE"
+        h = f.args.args[1].arg
+        unp = [st for st in body_walk(f) if isinstance(st, ast.Assign) and src(st.value) == h and isinstance(st.targets[0], ast.Tuple) and len(st.targets[0].elts) == 4]
+        ctx.check(len(unp) == 1, "remove/handle-layout", q, "the handle is not unpacked into four fields")
+        if unp:
+            p_, c_, a_, k_ = [src(e) for e in unp[0].targets[0].elts]
+            deleg = gfind(g, lambda x: _is_call(x, "self.removeTrigger_BASE") and len(x.args) == 1 and src(x.args[0]) == h)
+            fin_tests = g.ids(lambda n: n.kind == "test" and isinstance(n.ast, ast.Compare) and len(n.ast.ops) == 1 and isinstance(n.ast.ops[0], (ast.In, ast.NotIn))
+                              and src(n.ast.comparators[0]) == "self.finishedBefore")
+            ctx.check(bool(fin_tests) and all(src(g.node(t).ast.left) == f"({c_}, {a_}, {k_})" for t in fin_tests), "remove/already-ran-test", q,
+                      "removal during the before phase does not look the trigger up in finishedBefore as (callable, args, kwargs)")
+            ran = []
+            for t in fin_tests:
+                lab = "T" if isinstance(g.node(t).ast.ops[0], ast.In) else "F"
+                ran += [d for d, l in g.succ[t] if l == lab]
+                ctx.check(g.guarded(t, lambda e: src(e) in (f"{p_} != 'before'", f"{p_} == 'before'"), None), "remove/already-ran-test", ctx.construct(q, g.node(t).ast),
+                          "the finishedBefore test is applied to triggers of other phases")
+            # every normal exit passes the delegation, unless the trigger already ran
+            avoid = set(deleg)
+            w = g.path([g.entry], [g.exit], avoid=avoid | set(ran), edge_ok=no_exc)
+            ctx.check(bool(deleg) and w is None, "remove/really-removes", q,
+                      "a not-yet-executed trigger removed while before-triggers are firing is not removed (it still runs)", witness=g.describe(w))
 
     # ---- fireEvent ------------------------------------------------------------------------------------------------------------
-    f = m["fireEvent"]
-    g = ctx.cfg(f, swallowing=swallow)
-    q = f"{Q}.fireEvent"
-    sites = _drain_sites(ctx, f, g, q, names, {"self.before"}, "before")
-    ctx.check(len(sites) == 1, "order/before-drained", q, f"fireEvent drains self.before at {len(sites)} sites (one expected)")
-    other = [n for n in gfind(g, _is_pop) if src(next(x for x in ast.walk(g.node(n).ast) if _is_pop(x)).func.value) in ("self.during", "self.after")]
-    ctx.check(not other, "phase/during-after-wait", q, "fireEvent itself consumes during/after triggers (before the before-phase Deferreds fired)")
-    dls = gfind(g, lambda x: isinstance(x, ast.Call) and dotted(x.func) == "DeferredList")
-    ctx.check(len(dls) == 1, "phase/one-gate", q, f"{len(dls)} DeferredList gates in fireEvent (one expected)")
-    gate_list = None
-    for n in dls:
-        dl = next(x for x in ast.walk(g.node(n).ast) if isinstance(x, ast.Call) and dotted(x.func) == "DeferredList")
-        key = ctx.construct(q, g.node(n).ast)
-        flags = [k for k in dl.keywords if k.arg in ("fireOnOneCallback", "fireOnOneErrback") and not (isinstance(k.value, ast.Constant) and not k.value.value)]
-        ctx.check(len(dl.args) == 1 and isinstance(dl.args[0], ast.Name) and not flags and all(k.arg in ("fireOnOneCallback", "fireOnOneErrback", "consumeErrors") for k in dl.keywords),
-                  "phase/gate-waits-for-all", key, "the gate fires on the first result/failure instead of after every before-trigger Deferred "
-                  "(during/after triggers would run while before-triggers are still pending)")
-        gate_list = dl.args[0].id if dl.args and isinstance(dl.args[0], ast.Name) else None
-        par = getattr(dl, "_parent", None)
-        reg = getattr(par, "_parent", None)
-        ok = (isinstance(par, ast.Attribute) and par.attr in ("addCallback", "addBoth") and isinstance(reg, ast.Call) and len(reg.args) == 1
-              and src(reg.args[0]) == "self._continueFiring" and not reg.keywords)
-        if not ok:
-            # d = DeferredList(..); d.addCallback(self._continueFiring)
-            holders = {t.id for st in body_walk(f) for t, v in assign_pairs(st) if isinstance(t, ast.Name) and v is dl}
-            regs = [c for c in body_walk(f) if isinstance(c, ast.Call) and isinstance(c.func, ast.Attribute) and c.func.attr in ("addCallback", "addBoth")
-                    and isinstance(c.func.value, ast.Name) and c.func.value.id in holders and len(c.args) == 1 and src(c.args[0]) == "self._continueFiring"]
-            if regs:
-                rn = [x for c in regs for x in g.ids_of(c)]
-                ok = must_pass(g, [n], rn, exc=False) is None
-        ctx.check(ok, "phase/gate-continues", key, "the gate's callback is not _continueFiring: during/after triggers never run")
-        ctx.check(enclosing(dl, (ast.While, ast.For)) is None, "phase/one-gate", key, "the gate is created inside the before loop")
-        w = must_pass(g, [g.entry], [n], exc=False)
-        ctx.check(w is None, "phase/gate-continues", q + " | <all paths>", "fireEvent can finish without arranging the during/after phases", witness=g.describe(w))
-        for (pn, on, _, _) in sites:
-            ctx.check(g.path([n], [pn]) is None, "phase/during-after-wait", key, "the gate is created before all before-triggers ran")
-    for (pn, on, (fn, a, kw), lst) in sites:
-        ost = g.node(on).ast
-        okey = ctx.construct(q, ost)
-        res = [t.id for t, v in assign_pairs(ost) if isinstance(t, ast.Name) and isinstance(v, ast.Call) and isinstance(v.func, ast.Name) and v.func.id == fn]
-        ctx.check(len(res) == 1, "phase/results-collected", okey, "the before-trigger's return value is dropped: a returned Deferred is not waited for")
-        if len(res) != 1:
-            continue
-        rv = res[0]
-        itests = g.ids(lambda n: n.kind == "test" and isinstance(n.ast, ast.Call) and dotted(n.ast.func) == "isinstance" and len(n.ast.args) == 2
-                       and src(n.ast.args[0]) == rv and src(n.ast.args[1]) == "Deferred")
-        apps = gfind(g, lambda x: isinstance(x, ast.Call) and isinstance(x.func, ast.Attribute) and x.func.attr == "append" and gate_list is not None
-                     and src(x.func.value) == gate_list and len(x.args) == 1 and src(x.args[0]) == rv)
-        ctx.check(bool(itests) and bool(apps), "phase/results-collected", okey,
-                  "a Deferred returned by a before-trigger is not added to the list the gate waits on: during/after triggers run before it fires")
-        w = must_pass(g, [on], itests, exc=True)
-        ctx.check(w is None, "phase/results-collected", okey + " | <every result examined>", "a before-trigger's result can skip the Deferred test", witness=g.describe(w))
-        for t in itests:
-            s = [d for d, l in g.succ[t] if l == "T"]
-            w = must_pass(g, s, apps, exc=False)
-            ctx.check(w is None, "phase/results-collected", okey + " | <Deferred result>", "a Deferred result can skip the gate list", witness=g.describe(w))
-        for ap in apps:
-            extra = [src(g.node(t).ast) for t, lab in g.edge_guards(ap) if t not in itests and src(g.node(t).ast) != lst]
-            ctx.check(not extra, "phase/results-collected", ctx.construct(q, g.node(ap).ast), "collection of the Deferred depends on an extra condition: " + ", ".join(extra))
-        # gate list starts empty, before the loop
-        init = g.ids(lambda n: n.kind == "stmt" and any(isinstance(t, ast.Name) and t.id == gate_list and isinstance(v, ast.List) and not v.elts for t, v in assign_pairs(n.ast)))
-        w = g.must_precede(init, [pn]) if init else [g.entry]
-        ctx.check(bool(init) and w is None and all(enclosing(g.node(i).ast, (ast.While, ast.For)) is None for i in init), "phase/results-collected", q + " | <gate list>",
-                  "the gate list is not created empty once before the loop (results of earlier triggers are lost)", witness=g.describe(w))
-        # the result variable is defined when the trigger raised
-        others = g.ids(lambda n: n.kind == "stmt" and n.id != on and any(isinstance(t, ast.Name) and t.id == rv for t, v in assign_pairs(n.ast)))
-        w = g.path([g.entry], itests, avoid=set(others), edge_ok=lambda a, b, l: not (a == on and l != "exc")) if itests else None
-        ctx.check(w is None, "isolation/result-defined-after-failure", okey,
-                  "when a before-trigger raises, the result variable is unbound at the Deferred test: NameError aborts fireEvent and the remaining triggers never run",
-                  witness=g.describe(w))
-        # finishedBefore appended between pop and call
-        fb = gfind(g, lambda x: _is_call(x, "self.finishedBefore.append") and len(x.args) == 1 and isinstance(x.args[0], ast.Tuple)
-                   and [src(e) for e in x.args[0].elts] == [fn, a, kw])
-        w = g.path([pn], [on], avoid=set(fb)) if fb else [pn, on]
-        ctx.check(bool(fb) and w is None, "remove/finished-recorded-before-call", okey,
-                  "the trigger is not recorded in finishedBefore before it is called: a trigger that removes itself (or an earlier one) while running "
-                  "gets ValueError instead of the documented warning", witness=g.describe(w))
-        st_b = g.ids(lambda n: n.kind == "stmt" and any(self_attr(t, "state") and is_const_str(v, "BEFORE") for t, v in assign_pairs(n.ast)))
-        fb_r = g.ids(lambda n: n.kind == "stmt" and any(self_attr(t, "finishedBefore") and isinstance(v, ast.List) and not v.elts for t, v in assign_pairs(n.ast)))
-        for what, nodes in (("state = 'BEFORE'", st_b), ("finishedBefore = []", fb_r)):
-            w = g.must_precede(nodes, [pn]) if nodes else [g.entry]
-            ctx.check(bool(nodes) and w is None, "remove/before-state-entered", f"{q} | {what}",
-                      f"{what} is not established before the first before-trigger runs (removal from inside a trigger takes the wrong branch)", witness=g.describe(w))
+    with section(ctx, 'fireEvent'):
+        f = m["fireEvent"]
+        g = ctx.cfg(f, swallowing=swallow)
+        q = f"{Q}.fireEvent"
+        sites = _drain_sites(ctx, f, g, q, names, {"self.before"}, "before")
+        ctx.check(len(sites) == 1, "order/before-drained", q, f"fireEvent drains self.before at {len(sites)} sites (one expected)")
+        other = [n for n in gfind(g, _is_pop) if src(next(x for x in ast.walk(g.node(n).ast) if _is_pop(x)).func.value) in ("self.during", "self.after")]
+        ctx.check(not other, "phase/during-after-wait", q, "fireEvent itself consumes during/after triggers (before the before-phase Deferreds fired)")
+        dls = gfind(g, lambda x: isinstance(x, ast.Call) and dotted(x.func) == "DeferredList")
+        ctx.check(len(dls) == 1, "phase/one-gate", q, f"{len(dls)} DeferredList gates in fireEvent (one expected)")
+        gate_list = None
+        for n in dls:
+            dl = next(x for x in ast.walk(g.node(n).ast) if isinstance(x, ast.Call) and dotted(x.func) == "DeferredList")
+            key = ctx.construct(q, g.node(n).ast)
+            flags = [k for k in dl.keywords if k.arg in ("fireOnOneCallback", "fireOnOneErrback") and not (isinstance(k.value, ast.Constant) and not k.value.value)]
+            ctx.check(len(dl.args) == 1 and isinstance(dl.args[0], ast.Name) and not flags and all(k.arg in ("fireOnOneCallback", "fireOnOneErrback", "consumeErrors") for k in dl.keywords),
+                      "phase/gate-waits-for-all", key, "the gate fires on the first result/failure instead of after every before-trigger Deferred "
+                      "(during/after triggers would run while before-triggers are still pending)")
+            gate_list = dl.args[0].id if dl.args and isinstance(dl.args[0], ast.Name) else None
+            par = getattr(dl, "_parent", None)
+            reg = getattr(par, "_parent", None)
+            ok = (isinstance(par, ast.Attribute) and par.attr in ("addCallback", "addBoth") and isinstance(reg, ast.Call) and len(reg.args) == 1
+                  and src(reg.args[0]) == "self._continueFiring" and not reg.keywords)
+            if not ok:
+                # d = DeferredList(..); d.addCallback(self._continueFiring)
+                holders = {t.id for st in body_walk(f) for t, v in assign_pairs(st) if isinstance(t, ast.Name) and v is dl}
+                regs = [c for c in body_walk(f) if isinstance(c, ast.Call) and isinstance(c.func, ast.Attribute) and c.func.attr in ("addCallback", "addBoth")
+                        and isinstance(c.func.value, ast.Name) and c.func.value.id in holders and len(c.args) == 1 and src(c.args[0]) == "self._continueFiring"]
+                if regs:
+                    rn = [x for c in regs for x in g.ids_of(c)]
+                    ok = must_pass(g, [n], rn, exc=False) is None
+            ctx.check(ok, "phase/gate-continues", key, "the gate's callback is not _continueFiring: during/after triggers never run")
+            ctx.check(enclosing(dl, (ast.While, ast.For)) is None, "phase/one-gate", key, "the gate is created inside the before loop")
+            w = must_pass(g, [g.entry], [n], exc=False)
+            ctx.check(w is None, "phase/gate-continues", q + " | <all paths>", "fireEvent can finish without arranging the during/after phases", witness=g.describe(w))
+            for (pn, on, _, _) in sites:
+                ctx.check(g.path([n], [pn]) is None, "phase/during-after-wait", key, "the gate is created before all before-triggers ran")
+        for (pn, on, (fn, a, kw), lst) in sites:
+            ost = g.node(on).ast
+            okey = ctx.construct(q, ost)
+            res = [t.id for t, v in assign_pairs(ost) if isinstance(t, ast.Name) and isinstance(v, ast.Call) and isinstance(v.func, ast.Name) and v.func.id == fn]
+            ctx.check(len(res) == 1, "phase/results-collected", okey, "the before-trigger's return value is dropped: a returned Deferred is not waited for")
+            if len(res) != 1:
+                continue
+            rv = res[0]
+            itests = g.ids(lambda n: n.kind == "test" and isinstance(n.ast, ast.Call) and dotted(n.ast.func) == "isinstance" and len(n.ast.args) == 2
+                           and src(n.ast.args[0]) == rv and src(n.ast.args[1]) == "Deferred")
+            apps = gfind(g, lambda x: isinstance(x, ast.Call) and isinstance(x.func, ast.Attribute) and x.func.attr == "append" and gate_list is not None
+                         and src(x.func.value) == gate_list and len(x.args) == 1 and src(x.args[0]) == rv)
+            ctx.check(bool(itests) and bool(apps), "phase/results-collected", okey,
+                      "a Deferred returned by a before-trigger is not added to the list the gate waits on: during/after triggers run before it fires")
+            w = must_pass(g, [on], itests, exc=True)
+            ctx.check(w is None, "phase/results-collected", okey + " | <every result examined>", "a before-trigger's result can skip the Deferred test", witness=g.describe(w))
+            for t in itests:
+                s = [d for d, l in g.succ[t] if l == "T"]
+                w = must_pass(g, s, apps, exc=False)
+                ctx.check(w is None, "phase/results-collected", okey + " | <Deferred result>", "a Deferred result can skip the gate list", witness=g.describe(w))
+            for ap in apps:
+                extra = [src(g.node(t).ast) for t, lab in g.edge_guards(ap) if t not in itests and src(g.node(t).ast) != lst]
+                ctx.check(not extra, "phase/results-collected", ctx.construct(q, g.node(ap).ast), "collection of the Deferred depends on an extra condition: " + ", ".join(extra))
+            # gate list starts empty, before the loop
+            init = g.ids(lambda n: n.kind == "stmt" and any(isinstance(t, ast.Name) and t.id == gate_list and isinstance(v, ast.List) and not v.elts for t, v in assign_pairs(n.ast)))
+            w = g.must_precede(init, [pn]) if init else [g.entry]
+            ctx.check(bool(init) and w is None and all(enclosing(g.node(i).ast, (ast.While, ast.For)) is None for i in init), "phase/results-collected", q + " | <gate list>",
+                      "the gate list is not created empty once before the loop (results of earlier triggers are lost)", witness=g.describe(w))
+            # the result variable is defined when the trigger raised
+            others = g.ids(lambda n: n.kind == "stmt" and n.id != on and any(isinstance(t, ast.Name) and t.id == rv for t, v in assign_pairs(n.ast)))
+            w = g.path([g.entry], itests, avoid=set(others), edge_ok=lambda a, b, l: not (a == on and l != "exc")) if itests else None
+            ctx.check(w is None, "isolation/result-defined-after-failure", okey,
+                      "when a before-trigger raises, the result variable is unbound at the Deferred test: NameError aborts fireEvent and the remaining triggers never run",
+                      witness=g.describe(w))
+            # finishedBefore appended between pop and call
+            fb = gfind(g, lambda x: _is_call(x, "self.finishedBefore.append") and len(x.args) == 1 and isinstance(x.args[0], ast.Tuple)
+                       and [src(e) for e in x.args[0].elts] == [fn, a, kw])
+            w = g.path([pn], [on], avoid=set(fb)) if fb else [pn, on]
+            ctx.check(bool(fb) and w is None, "remove/finished-recorded-before-call", okey,
+                      "the trigger is not recorded in finishedBefore before it is called: a trigger that removes itself (or an earlier one) while running "
+                      "gets ValueError instead of the documented warning", witness=g.describe(w))
+            st_b = g.ids(lambda n: n.kind == "stmt" and any(self_attr(t, "state") and is_const_str(v, "BEFORE") for t, v in assign_pairs(n.ast)))
+            fb_r = g.ids(lambda n: n.kind == "stmt" and any(self_attr(t, "finishedBefore") and isinstance(v, ast.List) and not v.elts for t, v in assign_pairs(n.ast)))
+            for what, nodes in (("state = 'BEFORE'", st_b), ("finishedBefore = []", fb_r)):
+                w = g.must_precede(nodes, [pn]) if nodes else [g.entry]
+                ctx.check(bool(nodes) and w is None, "remove/before-state-entered", f"{q} | {what}",
+                          f"{what} is not established before the first before-trigger runs (removal from inside a trigger takes the wrong branch)", witness=g.describe(w))
 
     # ---- _continueFiring -----------------------------------------------------------------------------------------------------
-    f = m["_continueFiring"]
-    g = ctx.cfg(f, swallowing=swallow)
-    q = f"{Q}._continueFiring"
-    loops = [n for n in body_walk(f) if isinstance(n, ast.For) and isinstance(n.target, ast.Name) and isinstance(n.iter, (ast.Tuple, ast.List))]
-    lists_ok = {"self.during", "self.after"}
-    for lp in loops:
-        elts = [src(e) for e in lp.iter.elts]
-        ctx.check(elts == ["self.during", "self.after"], "phase/during-then-after", ctx.construct(q, f"for {src(lp.target)} in {src(lp.iter)}"),
-                  "the phases are not drained in the order during, after (or one is missing / foreign)")
-        lists_ok.add(lp.target.id)
-    sites = _drain_sites(ctx, f, g, q, names, lists_ok, "late")
-    drained = set()
-    for (pn, on, _, lst) in sites:
-        if lst in ("self.during", "self.after"):
-            drained.add(lst)
-        else:
-            for lp in loops:
-                if lp.target.id == lst:
-                    drained.update(src(e) for e in lp.iter.elts)
-    ctx.check({"self.during", "self.after"} <= drained, "phase/during-then-after", q, "not both of during / after are drained: " + ", ".join(sorted(drained)))
-    d_p = [pn for pn, _, _, lst in sites if lst == "self.during"]
-    a_p = [pn for pn, _, _, lst in sites if lst == "self.after"]
-    if d_p and a_p:
-        w = g.path(a_p, d_p)
-        ctx.check(w is None, "phase/during-then-after", q + " | <explicit loops>", "an after-trigger can run before a during-trigger", witness=g.describe(w))
-    ctx.check("self.before" not in {lst for _, _, _, lst in sites}, "phase/during-then-after", q + " | <before>", "before-triggers are consumed in the continuation")
-    st_b = g.ids(lambda n: n.kind == "stmt" and any(self_attr(t, "state") and is_const_str(v, "BASE") for t, v in assign_pairs(n.ast)))
-    fb_r = g.ids(lambda n: n.kind == "stmt" and any(self_attr(t, "finishedBefore") and isinstance(v, ast.List) and not v.elts for t, v in assign_pairs(n.ast)))
-    outs = [on for _, on, _, _ in sites]
-    ok = False
-    w = None
-    for nodes in (st_b, fb_r):
-        if nodes and outs:
-            w_ = g.must_precede(nodes, outs)
-            if w_ is None:
-                ok = True
+    with section(ctx, '_continueFiring'):
+        f = m["_continueFiring"]
+        g = ctx.cfg(f, swallowing=swallow)
+        q = f"{Q}._continueFiring"
+        loops = [n for n in body_walk(f) if isinstance(n, ast.For) and isinstance(n.target, ast.Name) and isinstance(n.iter, (ast.Tuple, ast.List))]
+        lists_ok = {"self.during", "self.after"}
+        for lp in loops:
+            elts = [src(e) for e in lp.iter.elts]
+            ctx.check(elts == ["self.during", "self.after"], "phase/during-then-after", ctx.construct(q, f"for {src(lp.target)} in {src(lp.iter)}"),
+                      "the phases are not drained in the order during, after (or one is missing / foreign)")
+            lists_ok.add(lp.target.id)
+        sites = _drain_sites(ctx, f, g, q, names, lists_ok, "late")
+        drained = set()
+        for (pn, on, _, lst) in sites:
+            if lst in ("self.during", "self.after"):
+                drained.add(lst)
             else:
-                w = w_
-    ctx.check(ok, "remove/before-state-left", q,
-              "during/after triggers run while the event still records executed before-triggers: removing a (re-added) before-trigger from them "
-              "only warns and the trigger runs again at the next firing", witness=g.describe(w) if not ok else "")
+                for lp in loops:
+                    if lp.target.id == lst:
+                        drained.update(src(e) for e in lp.iter.elts)
+        ctx.check({"self.during", "self.after"} <= drained, "phase/during-then-after", q, "not both of during / after are drained: " + ", ".join(sorted(drained)))
+        d_p = [pn for pn, _, _, lst in sites if lst == "self.during"]
+        a_p = [pn for pn, _, _, lst in sites if lst == "self.after"]
+        if d_p and a_p:
+            w = g.path(a_p, d_p)
+            ctx.check(w is None, "phase/during-then-after", q + " | <explicit loops>", "an after-trigger can run before a during-trigger", witness=g.describe(w))
+        ctx.check("self.before" not in {lst for _, _, _, lst in sites}, "phase/during-then-after", q + " | <before>", "before-triggers are consumed in the continuation")
+        st_b = g.ids(lambda n: n.kind == "stmt" and any(self_attr(t, "state") and is_const_str(v, "BASE") for t, v in assign_pairs(n.ast)))
+        fb_r = g.ids(lambda n: n.kind == "stmt" and any(self_attr(t, "finishedBefore") and isinstance(v, ast.List) and not v.elts for t, v in assign_pairs(n.ast)))
+        outs = [on for _, on, _, _ in sites]
+        ok = False
+        w = None
+        for nodes in (st_b, fb_r):
+            if nodes and outs:
+                w_ = g.must_precede(nodes, outs)
+                if w_ is None:
+                    ok = True
+                else:
+                    w = w_
+        ctx.check(ok, "remove/before-state-left", q,
+                  "during/after triggers run while the event still records executed before-triggers: removing a (re-added) before-trigger from them "
+                  "only warns and the trigger runs again at the next firing", witness=g.describe(w) if not ok else "")
 
     # ---- _continueFiring is only the gate's callback ------------------------------------------------------------------------
-    refs = [n for n in ast.walk(mod.tree) if isinstance(n, ast.Attribute) and n.attr == "_continueFiring"]
-    nref = 0
-    for r in refs:
-        nref += 1
-        par = getattr(r, "_parent", None)
-        ok = (isinstance(par, ast.Call) and any(a is r for a in par.args) and isinstance(par.func, ast.Attribute) and par.func.attr in ("addCallback", "addBoth")
-              and mod.qualname(r) == "_ThreePhaseEvent.fireEvent")
-        ctx.check(ok, "phase/continue-only-from-gate", ctx.construct("twisted.internet.base." + mod.qualname(r), par if par is not None else r),
-                  "_continueFiring is invoked / referenced outside the DeferredList gate: during and after triggers run without waiting for the before-trigger Deferreds")
+    with section(ctx, "_continueFiring is only the gate's callback"):
+        refs = [n for n in ast.walk(mod.tree) if isinstance(n, ast.Attribute) and n.attr == "_continueFiring"]
+        nref = 0
+        for r in refs:
+            nref += 1
+            par = getattr(r, "_parent", None)
+            ok = (isinstance(par, ast.Call) and any(a is r for a in par.args) and isinstance(par.func, ast.Attribute) and par.func.attr in ("addCallback", "addBoth")
+                  and mod.qualname(r) == "_ThreePhaseEvent.fireEvent")
+            ctx.check(ok, "phase/continue-only-from-gate", ctx.construct("twisted.internet.base." + mod.qualname(r), par if par is not None else r),
+                      "_continueFiring is invoked / referenced outside the DeferredList gate: during and after triggers run without waiting for the before-trigger Deferreds")
 
     # ---- reactor entry points -------------------------------------------------------------------------------------------------------
-    f = ctx.func(BASE, "ReactorBase.fireSystemEvent")
-    calls = [c for c in body_walk(f) if isinstance(c, ast.Call) and call_attr(c) == "fireEvent"]
-    ctx.check(len(calls) == 1, "reactor/fires-event", "twisted.internet.base.ReactorBase.fireSystemEvent", "fireSystemEvent does not call fireEvent exactly once")
-    f = ctx.func(BASE, "ReactorBase.addSystemEventTrigger")
-    ps = [a.arg for a in f.args.args]
-    calls = [c for c in body_walk(f) if isinstance(c, ast.Call) and call_attr(c) == "addTrigger"]
-    ok = len(calls) == 1 and [src(a) for a in calls[0].args] == [ps[1], ps[3], "*" + f.args.vararg.arg] and [src(k.value) for k in calls[0].keywords] == [f.args.kwarg.arg] \
-        and src(calls[0].func.value) == f"self._eventTriggers[{ps[2]}]"
-    ctx.check(ok, "reactor/registers-trigger", "twisted.internet.base.ReactorBase.addSystemEventTrigger",
-              "addSystemEventTrigger does not forward (phase, callable, *args, **kwargs) to the event of that type")
+    with section(ctx, 'reactor entry points'):
+        f = ctx.func(BASE, "ReactorBase.fireSystemEvent")
+        calls = [c for c in body_walk(f) if isinstance(c, ast.Call) and call_attr(c) == "fireEvent"]
+        ctx.check(len(calls) == 1, "reactor/fires-event", "twisted.internet.base.ReactorBase.fireSystemEvent", "fireSystemEvent does not call fireEvent exactly once")
+        f = ctx.func(BASE, "ReactorBase.addSystemEventTrigger")
+        ps = [a.arg for a in f.args.args]
+        calls = [c for c in body_walk(f) if isinstance(c, ast.Call) and call_attr(c) == "addTrigger"]
+        ok = len(calls) == 1 and [src(a) for a in calls[0].args] == [ps[1], ps[3], "*" + f.args.vararg.arg] and [src(k.value) for k in calls[0].keywords] == [f.args.kwarg.arg] \
+            and src(calls[0].func.value) == f"self._eventTriggers[{ps[2]}]"
+        ctx.check(ok, "reactor/registers-trigger", "twisted.internet.base.ReactorBase.addSystemEventTrigger",
+                  "addSystemEventTrigger does not forward (phase, callable, *args, **kwargs) to the event of that type")
 
 
 def is_const_str(node, value):
